@@ -187,6 +187,8 @@ def _enum(v: int, k: Knobs) -> Tlv:
 
 def enc_filter(f: t.Any, k: Knobs) -> Tlv:
     kind = f[0]
+    if kind == "custom":  # ("custom", context tag number, content octets): a filter choice the RFC does not define
+        return _ctxp(f[1], f[2], k)
     tag = FILTER_TAG[kind]
     if kind in ("and", "or"):
         return _p(ber.cons(CONTEXT, tag, [enc_filter(x, k) for x in f[1]]), k)
@@ -266,6 +268,8 @@ def enc_op(m: t.Any, k: Knobs) -> Tlv:
         auth = m["auth"]
         if auth[0] == "simple":
             a = _ctxp(0, _u8(auth[1]), k)
+        elif auth[0] == "custom":  # ("custom", context tag number, content octets)
+            a = _ctxp(auth[1], auth[2], k)
         else:
             akids = [_ostr(_u8(auth[1]), k)]
             if auth[2] is not None:
